@@ -10,7 +10,7 @@ OPS = ("get_byte", "get_bytes", "get_char", "get_short", "get_three", "get_int",
        "mode_on", "mode_off", "next_chunk", "slice", "slice_default", "remaining", "get_bytes_zero")
 HOPS = ("get_byte", "get_short", "get_bytes", "get_string", "get_fixed_string_padded", "get_encoded_string", "mode_on", "mode_off", "next_chunk", "slice")
 BOUNDS = {"quick": "step: every byte string of length 0..3 x every reachable state x each of 19 operations with arguments 0..n+2; histories (observed and blind): all sequences of length <= 2 over 10 operation kinds, data length 2; bytearray / memoryview containers (n=2); long chunks with every byte symbolic: 72, 136, 264, 520 bytes",
-          "thorough": "step: every byte string of length 0..5; histories (observed and blind): all sequences of length <= 3 over 10 operation kinds, data length 3; containers n=1..3; long chunks up to 2,056 bytes"}
+          "thorough": "step: every byte string of length 0..4; histories (observed and blind): all sequences of length <= 3 over 10 operation kinds, data length 3; containers n=1..3; long chunks up to 1,030 bytes"}
 OUTSIDE = "data longer than the bound; negative arguments (excluded by the property, only their ValueError is checked); mutation of a caller-owned buffer behind the memoryview"
 ASSUMPTIONS = ["every reachable reader state is reached by the canonical prefix [chunked on; k x next_chunk; chunked off; get_bytes(j); set mode] (argued in DESIGN.md section 7 C05)"]
 
@@ -18,7 +18,7 @@ ASSUMPTIONS = ["every reachable reader state is reached by the canonical prefix 
 def jobs(tier):
     q = tier == "quick"
     js = []
-    for n in range(0, (3 if q else 5) + 1):
+    for n in range(0, (3 if q else 4) + 1):
         for op in OPS:
             if q and n >= 4 and op in ("slice", "slice_default"):
                 continue       # the slice obligations (slice driven in chunked mode, slice of slice) are the heaviest: n <= 3 in the quick tier
@@ -35,7 +35,7 @@ def jobs(tier):
                 js.append(dict(name=f"step-{kind}[n={n},{op}]", fn="step", args=[n, op, False, kind], collect_models=1, max_violations=1,
                                expect=["post-state: position equals the model's"]))
     # size thresholds (seed C06h: a widening-window scan that skips offsets 64..127): long chunks, all bytes symbolic
-    for n, lo in ([(72, 60), (136, 120), (264, 250), (520, 506)] if q else [(40, 0), (72, 0), (72, 60), (136, 60), (136, 120), (200, 120), (264, 250), (400, 380), (520, 500), (1030, 1020), (2056, 2044)]):
+    for n, lo in ([(72, 60), (136, 120), (264, 250), (520, 506)] if q else [(40, 0), (72, 0), (72, 60), (136, 60), (136, 120), (200, 120), (264, 250), (400, 380), (520, 500), (1030, 1020)]):
         js.append(dict(name=f"long[n={n},first break>={lo}]", fn="long_chunks", args=[n, lo], collect_models=1,
                        expect=["long: second chunk: position equals the model's"]))
     hn, depth = (2, 2) if q else (3, 3)
